@@ -45,6 +45,7 @@ SRVINLINE = dict(pkg="./server", test="TestVerifServerInlining", name="srvinline
 SRVWRITETHROUGH = dict(pkg="./server", test="TestVerifServerWriteThrough", name="srvwritethrough", diff=False)
 UPLOADLEAK = dict(pkg="./server", test="TestVerifServerRefusedUploadLeaks", name="uploadleak", diff=False)
 SRVBACKENDWRITE = dict(pkg="./server", test="TestVerifServerWriteExistingInBackend", name="srvbackendwrite", diff=False)
+SRVNEGSIZE = dict(pkg="./server", test="TestVerifServerNegativeSizes", name="srvnegsize", diff=False)
 SRVPOOL = dict(pkg="./server", test="TestVerifServerFailedReadThenOverlappingReads", name="srvpool", diff=False)
 SRVPROXYLIMIT = dict(pkg="./server", test="TestVerifServerProxyLimit", name="srvproxylimit", diff=False)
 SRVRTHARD = dict(pkg="./server", test="TestVerifServerReadThroughHardLimit", name="srvrthard", diff=False)
@@ -142,7 +143,7 @@ PROPS = {
         level_text="Theorems on M10: early return for existing blobs, failure for non-zero first offset / bad or empty name / over-limit size / more or fewer bytes than declared, success commits exactly the declared size, parsers accept every conformant name with any instance prefix and trailing metadata; the real Write compared with writeRPC on generated message sequences. QueryWriteStatus complete iff present for both name spellings; Write/QueryWriteStatus of a blob only the back end holds (sizes reported or not).",
         level_note=NOTE + "the three-goroutine schedule is abstracted to the message sequence.", technique=TECH),
     "C10": dict(
-        lean="BR.Props.C10", runs=[FINDMISSING, FAILFAST, FMQUEUE], trusted_base=COMMON_TB, assumptions=[],
+        lean="BR.Props.C10", runs=[FINDMISSING, FAILFAST, FMQUEUE, SRVNEGSIZE], trusted_base=COMMON_TB, assumptions=[],
         level_text="Theorems on M7 for every batch size and list length: the answer is the request filtered by 'absent locally (or other size) and not vouched for by the back end (or too large for it)', in order with duplicates; present-throughout never reported, absent-throughout reported, empty blob never missing, worker write order irrelevant, fail-fast miss iff something is missing. The real FindMissingCasBlobs compared with the model on generated partitions with concurrent unrelated puts; the final select driven through its yield point. The back end's answer carries the size it reports (none for size-less stores): it vouches only with a size that does not contradict the stated one (backend_vouches_iff). Stalled back end with pool and queue full.",
         level_note=NOTE + "the worker pool's scheduling is abstracted by the order-irrelevance theorem.", technique=TECH),
     "C19": dict(
